@@ -79,6 +79,13 @@ def tasks(tier):
     out = ['eq:%s:%s' % (m, c) for m, c, _ in EQUATIONS]
     out += ['rho:%s:%s' % (m, c) for m, c, _ in DENSITY]
     out += ['w0', 'canary']
+    # contracts this property ASSUMES from other checks are re-proved here,
+    # so that a change to a pair symbol or to a kernel gradient that breaks
+    # conservation fails this check too (names prefixed dep.)
+    out += ['dep:symbols']
+    from contracts import C08
+    out += ['dep:kernel:%s:%d' % (cls, max(C08.DIMS[cls]))
+            for cls in C08.DIMS]
     return out
 
 
@@ -331,6 +338,24 @@ def run_task(task, ctx):
         return task_rho(ctx, repo, parts[1], parts[2], prop)
     if parts[0] == 'w0':
         return task_w0(ctx, repo)
+    if parts[0] == 'dep':
+        n0 = len(ctx.results)
+        if parts[1] == 'symbols':
+            from contracts import C02
+            C02.task_symbols(ctx, repo)
+        else:
+            from contracts import C08
+            m8 = repo.module(C08.MOD)
+            C08.task_kernel(repo, m8, parts[2], int(parts[3]), ctx)
+        if parts[1] != 'symbols':
+            # only what conservation relies on: the gradient is the scalar
+            # dwdq factor times XIJ (central, antisymmetric in the pair)
+            ctx.results[n0:] = [r for r in ctx.results[n0:]
+                                if r['name'].endswith('.gradient') or
+                                r.get('kind') in ('cover', 'canary')]
+        for r in ctx.results[n0:]:
+            r['name'] = 'dep.' + r['name']
+        return
     if parts[0] == 'canary':
         a, b = z3.Reals('ca cb')
         ctx.canary('canary.must_fail', Obligation('c', [], a * b == a + b))
